@@ -342,13 +342,17 @@ def fam_multi(tier, seed):
         out.append(F('multi2', [V[i] for i in t], chunks='all', writes=SELECTIONS))
     for t in itertools.product(idx, repeat=3):
         core = all(i in V_CORE for i in t)
-        if tier == 'quick' and not core:
-            if (sum(t) + seed) % 4 != 0:
-                continue   # extension slice rotated by the seed; thorough runs every triple
         out.append(F('multi3', [V[i] for i in t], chunks='all', writes=SELECTIONS if (core or tier == 'thorough') else ['whole', 'sel-sel']))
-    if tier == 'thorough':
-        for t in itertools.product(V_CORE, repeat=4):
+    if tier == 'quick':
+        # extension slice rotated by the seed: a third of the 4-record files over the core variants
+        for j, t in enumerate(itertools.product(V_CORE, repeat=4)):
+            if (j + seed) % 3 == 0:
+                out.append(F('multi4', [V[i] for i in t], chunks='all', writes=['whole', 'sel-sel-mask']))
+    else:
+        for t in itertools.product(idx, repeat=4):
             out.append(F('multi4', [V[i] for i in t], chunks='all', writes=['whole', 'mask-alt', 'sel-sel-mask', 'fancy-rep']))
+        for t in itertools.product(V_CORE, repeat=5):
+            out.append(F('multi5', [V[i] for i in t], chunks='all', writes=['whole', 'sel-sel-mask']))
     # one file with everything, a handful of chunk sizes
     big = [dict(V[i % len(V)], name='%s%d' % (V[i % len(V)]['name'][:3], i)) for i in range(30)]
     out.append(F('multi-pack', big, chunks=[0, 1, 2, 3, 4, 5, 40, 100, 'total'], writes=SELECTIONS))
@@ -400,10 +404,13 @@ def fam_big(tier, seed):
 
 FAMILIES = {'singles': fam_singles, 'seq': fam_seq, 'cigar': fam_cigar, 'scalars': fam_scalars, 'qual': fam_qual,
             'tags': fam_tags, 'header': fam_header, 'multi': fam_multi, 'comp': fam_comp, 'big': fam_big}
-# number of shards per family (similar cost per shard; measured CPU seconds are reported in evidence extra)
+# shard groups: families of similar kind; the number of shards per group follows the measured CPU seconds
+# (reported per family in the evidence under extra/cpu_ms) so that shards cost about the same
+GROUPS = {'multi': ['multi'], 'singles': ['singles'], 'misc': ['seq', 'cigar', 'scalars', 'qual', 'tags', 'header'],
+          'comp': ['comp'], 'big': ['big']}
 PARTS = {
-    'quick': {'singles': 12, 'seq': 3, 'cigar': 2, 'scalars': 1, 'qual': 1, 'tags': 2, 'header': 2, 'multi': 14, 'comp': 5, 'big': 2},
-    'thorough': {'singles': 8, 'seq': 6, 'cigar': 4, 'scalars': 1, 'qual': 1, 'tags': 1, 'header': 2, 'multi': 34, 'comp': 5, 'big': 2},
+    'quick': {'multi': 24, 'singles': 4, 'misc': 5, 'comp': 2, 'big': 2},
+    'thorough': {'multi': 48, 'singles': 2, 'misc': 3, 'comp': 2, 'big': 1},
 }
 
 
@@ -419,9 +426,9 @@ def bounds(tier, seed):
         'tags': '6 tag blocks (none, int, string, array ending in 0x0A, six mixed types, 300-byte string) alone and all 36 ordered pairs',
         'header': 'reference tables of 0..3 names from 4 spellings x 3 header texts x {all mapped, plus one record without reference}; 0-record files'
                   + (' (3-name tables: slice (index+seed)%3==0)' if tier == 'quick' else ''),
-        'multi': ('all 36 ordered pairs and all 216 ordered triples over 6 record variants, all 256 ordered 4-record files over 4 variants'
-                  if tier == 'thorough' else
-                  'all 36 ordered pairs over 6 record variants, all 64 triples over 4 core variants + triples with (sum+seed)%4==0') +
+        'multi': ('all 36 ordered pairs, all 216 ordered triples and all 1296 ordered 4-record files over 6 record variants, all 1024 '
+                  'ordered 5-record files over 4 variants' if tier == 'thorough' else
+                  'all 36 ordered pairs and all 216 ordered triples over 6 record variants, 4-record files over 4 core variants with (index+seed)%3==0') +
                  ' x EVERY chunk size largest record..total+2 x %d write selections; one 30-record file' % len(SELECTIONS),
         'comp': 'BGZF member boundary at every byte offset of a 3-record file (header included), two boundaries %s bytes apart at %s offset, '
                 'one byte per member, stored blocks, no EOF block, single-member gzip' %
@@ -452,12 +459,11 @@ def model_selftest():
 def shards(tier, seed):
     model_selftest()
     out = []
-    for fam in ['singles', 'multi', 'seq', 'cigar', 'scalars', 'qual', 'tags', 'header', 'comp', 'big']:
-        n = PARTS[tier][fam]
+    # simplest first (single-record files), so that the first exemplar of a failure group is a small file
+    for grp in ['singles', 'misc', 'big', 'comp', 'multi']:
+        n = PARTS[tier][grp]
         for i in range(n):
-            out.append({'family': fam, 'part': i, 'of': n, 'tier': tier, 'seed': seed})
-    # expensive shards first; the order does not change what is enumerated
-    out.sort(key=lambda d: (d['family'] != 'multi', d['family'] != 'big'))
+            out.append({'group': grp, 'part': i, 'of': n, 'tier': tier, 'seed': seed})
     return out
 
 
@@ -1008,7 +1014,7 @@ def check_file(res, case, d, only=None):
     cx = Ctx(res, case, b, d)
     for cl in ([only] if only is not None else clauses_of(case, b)):
         run_clause(cx, cl)
-    if len(res.samples) < 3 and only is None:
+    if len(res.samples) < 3 and only is None and len(set(b.blobs)) == b.n and any(r['tags'] for r in b.recs) and any(r['cigar'] for r in b.recs):
         res.sample({'family': case['family'], 'refs': case['refs'], 'records': [S.sam_line(r, b.refs) for r in b.recs[:3]],
                     'n_records': b.n, 'uncompressed_bytes': len(b.data), 'compression': case['comp'][0],
                     'record_sizes': [len(x) for x in b.blobs[:5]], 'chunk_sizes': (lambda ks: [ks[0], '...', ks[-1]] if len(ks) > 2 else ks)(k_list(case, b)),
@@ -1018,22 +1024,24 @@ def check_file(res, case, d, only=None):
 def run_shard(desc, deadline):
     res = Result()
     n_checked = model_selftest()
-    fam = desc['family']
-    cases = FAMILIES[fam](desc['tier'], desc.get('seed', 0))
+    cases = []
+    for fam in GROUPS[desc['group']]:
+        cases += FAMILIES[fam](desc['tier'], desc.get('seed', 0))
     mine = cases[desc['part']::desc['of']]
     d = tempfile.mkdtemp(dir='/dev/shm', prefix='c16_')
-    t0 = time.process_time()
     try:
         for case in mine:
             if deadline.expired():
                 res.capped = True
                 break
+            t0 = time.process_time()
             check_file(res, case, d)
+            fam = case['family'].rstrip('0123456789').split('-')[0]
+            res.extra['files:' + fam] += 1
+            res.extra['cpu_ms:' + fam] += int((time.process_time() - t0) * 1000)
     finally:
         shutil.rmtree(d, ignore_errors=True)
-    res.extra['files:' + fam] += len(mine)
-    res.extra['cpu_ms:' + fam] += int((time.process_time() - t0) * 1000)
-    if desc['part'] == 0 and fam == 'singles':
+    if desc['part'] == 0 and desc['group'] == 'singles':
         res.extra['model self-test: example BAM records equal to their SAM twins and re-encoded byte-identically'] += n_checked
     return res
 
